@@ -15,7 +15,7 @@ CLAIMS = {
          "Kani part: given a tree (build_matcher_tree / AndMatcherBuilder are scripts/recorders in c01_default_print). mirsym part: the real build_top_level_matcher, builders and combinators are executed end to end from their MIR on every token sequence of length <= 3 over a 15-word vocabulary (4 tokens: 10 words in quick, 15 in thorough), two symbolic leaf tests, one abstract file, compared with a reference parser/evaluator written from the grammar; std calls are models, Printer/-prune/-empty/-readable are natives. Operand-taking primaries, longer expressions and Printer's bytes are outside.",
          "4 C01"),
  "C02": ("findutils' side of the traversal: process_dir evaluates every yielded entry exactly once and in order, an error step gives a non-zero status and the walk continues (<=2/3 scripted steps, all entry records); the WalkDir configuration requested equals the Config (depth range incl. the empty range, -L/-H, -depth, -xdev, -sorted) for every Config; do_find accumulates the status over <=3 starting points.",
-         "walkdir 2.5 itself (which entries exist, link following, loop detection) is trusted: its iterator is scripted / its builder methods are recorders modelling its documented behaviour. WalkEntry::from_walkdir (dangling-link conversion) is not covered.",
+         "walkdir 2.5 itself (which entries exist, link following, loop detection) is trusted: in Kani its iterator is scripted and its builder methods are recorders; in mirsym (c02_walk) process_dir + WalkEntry::from_walkdir + WalkError's conversions run over a port of walkdir 2.5's iterator (min/max depth, contents_first, follow_links, errors for dangling and looping links and unreadable directories - errors bypass min_depth as in walkdir) on an 11-entry tree for every (mindepth, maxdepth) in 0..4 x -depth x -P/-H/-L: exactly the in-range entries are evaluated, each once, in order, a dangling link as a link.",
          "4 C02"),
  "C03": ("-prune marks exactly directories as the follow mode sees them (all types, P/H/L, stat failures) and is always true; the walk loop requests skip_current_dir iff -prune fired on a directory and -depth is off, for every script of <=2 (thorough 3) steps; contents_first/sort_by are requested iff -depth/-sorted.",
          "Pre/post-order and sibling order themselves are walkdir's (trusted). Path::parent is cut in the loop harness (disables only finished_dir bookkeeping).",
